@@ -185,10 +185,22 @@ func globalsDigest() string {
 type pcall struct {
 	name string
 	run  func() (obs string, roots []ast.Node)
+	full func() (obs string, roots []ast.Node, val any) // optional: also returns the complete returned value
+}
+
+// obsParseFull also returns the complete value (nodes and error) of the call, so that histories can
+// retain it and re-inspect it after later calls.
+func obsParseFull(entry, input string) (string, []ast.Node, any) {
+	res := EntryByName(entry).Call(input)
+	o, roots := obsOf(res)
+	return o, roots, []any{res.Roots, res.Err}
 }
 
 func obsParse(entry, input string) (string, []ast.Node) {
-	res := EntryByName(entry).Call(input)
+	return obsOf(EntryByName(entry).Call(input))
+}
+
+func obsOf(res ParseResult) (string, []ast.Node) {
 	var b strings.Builder
 	if res.Panic != nil {
 		fmt.Fprintf(&b, "PANIC %v", res.Panic)
@@ -210,7 +222,8 @@ func obsParse(entry, input string) (string, []ast.Node) {
 }
 
 func parseCall(entry, input string) pcall {
-	return pcall{entry + "(" + fmt.Sprintf("%q", input) + ")", func() (string, []ast.Node) { return obsParse(entry, input) }}
+	return pcall{entry + "(" + fmt.Sprintf("%q", input) + ")", func() (string, []ast.Node) { return obsParse(entry, input) },
+		func() (string, []ast.Node, any) { return obsParseFull(entry, input) }}
 }
 
 var purityCalls = []pcall{
@@ -229,17 +242,22 @@ var purityCalls = []pcall{
 	parseCall("ParseQuery", "SELECT o.order, o.desc, o.select, o.1 FROM o"),
 	parseCall("ParseQuery", "select x from t order by x desc limit 1 offset 2"),
 	parseCall("ParseQuery", "SELECT offset, value FROM `order` AS `select`"),
+	// two different inputs failing in the same lexer error path; an unsupported statement form
+	parseCall("ParseExpr", "1 + /* never closed"),
+	parseCall("ParseQuery", "SELECT 1\n  /* also never closed"),
+	parseCall("ParseDDL", "ALTER VIEW v"),
+	parseCall("ParseDDL", "CREATE FUNCTION f"),
 	{"SplitRawStatements(\"a; b\")", func() (string, []ast.Node) {
 		ps, err := memefish.SplitRawStatements("f.sql", "a; b")
 		return dumpOf(ps) + fmt.Sprint(err), nil
-	}},
+	}, nil},
 	{"Lexer(\"select `select` 'x' 0x1\")", func() (string, []ast.Node) {
 		toks, _, err, pv := fullLex("select `select` 'x' 0x1")
 		return dumpOf(toks) + fmt.Sprint(err, pv), nil
-	}},
+	}, nil},
 	{"QuoteSQLIdent/String", func() (string, []ast.Node) {
 		return token.QuoteSQLIdent("select") + token.QuoteSQLString("a'b") + token.QuoteSQLBytes([]byte("\x00")), nil
-	}},
+	}, nil},
 }
 
 // ops on an AST returned earlier in the same history
@@ -305,7 +323,7 @@ func C18obs(k int) {
 // C18: purity.
 func C18(r *explore.Run) {
 	r.Level = "model_checking"
-	r.Rule = "(1) histories: every sequence of at most N calls from a 17-call alphabet chosen to collide (same input twice, shared identifier names, '>>' splitting, sign folding, error paths reading the type-name tables, CREATE TABLE printing) plus SQL/Pos+End/Walk on ASTs returned earlier in the same history; in every state the call's observation (full tree dump with positions, SQL(), error texts) equals its observation in the initial state, earlier ASTs are unchanged, ASTs share no heap object with each other or with package-level state, and the digest of all package-level variables is unchanged; " +
+	r.Rule = "(1) histories: every sequence of at most N calls from a 21-call alphabet chosen to collide (same input twice, shared identifier names, '>>' splitting, sign folding, error paths reading the type-name tables, CREATE TABLE printing) plus SQL/Pos+End/Walk on ASTs returned earlier in the same history; in every state the call's observation (full tree dump with positions, SQL(), error texts) equals its observation in the initial state, earlier ASTs are unchanged, ASTs share no heap object with each other or with package-level state, and the digest of all package-level variables is unchanged; " +
 		"(2) schedules: 2 and 3 goroutines with 1-2 calls each under a cooperative scheduler whose scheduling points are inserted automatically before every statement touching package-level state: all interleavings that switch only at accesses to variables in the write/escape set W (fixpoint), and independently all interleavings over all points with <=2 preemptions; (3) write-set monitor over the S3 expression/DDL token strings; (4) corroboration: the same bodies free-running under the race detector. " +
 		"states = distinct digests of package-level state; transitions = calls executed; traces = histories/schedules executed against the implementation"
 	r.Assume = []string{"scheduling granularity is one statement touching package-level state; finer-grained or aliased accesses are left to the race-detector pass",
@@ -335,6 +353,7 @@ func C18(r *explore.Run) {
 			from   string
 		}
 		var asts []kept
+		var results []keptResult
 		var hist []string
 		for step := 0; step < n; step++ {
 			nalt := 1 + nc + no*len(asts)
@@ -347,7 +366,15 @@ func C18(r *explore.Run) {
 				call := purityCalls[k]
 				hist = append(hist, call.name)
 				c.Input(strings.Join(hist, " ; "))
-				obs, roots := call.run()
+				var obs string
+				var roots []ast.Node
+				if call.full != nil {
+					var val any
+					obs, roots, val = call.full()
+					results = append(results, keptResult{val, dumpOf(val), call.name})
+				} else {
+					obs, roots = call.run()
+				}
 				transitions++
 				if obs != initialObs[k] {
 					c.Violation("C18/history/observation-differs/"+call.name, strings.Join(hist, " ; "), fmt.Sprintf("result of %s after this history differs from its result in the initial state:\n%s\nvs\n%s", call.name, firstDiff(obs, initialObs[k]), ""))
@@ -392,6 +419,11 @@ func C18(r *explore.Run) {
 				}
 			}
 			// invariants in the state reached
+			for i, kr := range results {
+				if d := dumpOf(kr.val); d != kr.digest {
+					c.Violation("C18/history/earlier-result-changed/"+kr.from, strings.Join(hist, " ; "), fmt.Sprintf("the value (tree and error list) returned earlier by call #%d %s changed after a later call: %s", i, kr.from, firstDiff(d, kr.digest)))
+				}
+			}
 			for i, a := range asts {
 				if d := dumpOf(a.root); d != a.digest {
 					c.Violation("C18/history/earlier-ast-changed", strings.Join(hist, " ; "), fmt.Sprintf("AST #%d (from %s) changed: %s", i, a.from, firstDiff(d, a.digest)))
@@ -443,6 +475,36 @@ func C18(r *explore.Run) {
 		}
 	})
 
+	// (1b) repetition: every S3 token string (<=3 tokens) through its entry points three times in a row;
+	// the three observations (tree dump with positions, SQL(), error texts) must be identical
+	for _, a := range spaces.S3 {
+		toks, an := a.Toks, a.Name
+		r.Explore(explore.Options{Space: "S3-repeat/" + an, MaxDev: -1,
+			Bound: fmt.Sprintf("all strings of <=3 of %d tokens x 4 entry points x 3 repetitions", len(toks))}, func(c *explore.Ctx) {
+			seq := spaces.Seq(c, len(toks), 3)
+			parts := make([]string, len(seq))
+			for i, x := range seq {
+				parts[i] = toks[x]
+			}
+			s := strings.Join(parts, " ")
+			c.Input(s)
+			for _, e := range entriesFor(an) {
+				o1, _ := obsParse(e.Name, s)
+				for rep := 0; rep < 2; rep++ {
+					o2, _ := obsParse(e.Name, s)
+					transitions++
+					if o1 != o2 {
+						c.Violation("C18/repeat/result-differs/"+e.Name, e.Name+": "+s, fmt.Sprintf("the same call gives different results when repeated: %s", firstDiff(o1, o2)))
+						break
+					}
+				}
+			}
+			traces++
+			c.OutcomeStr(s)
+			c.Nontrivial(explore.Hash(s))
+		})
+	}
+
 	// (2) schedules
 	schedules(r, &transitions, &traces)
 
@@ -458,6 +520,12 @@ func C18(r *explore.Run) {
 }
 
 var globalsDigestInitial = ""
+
+type keptResult struct {
+	val    any
+	digest string
+	from   string
+}
 
 func firstDiff(a, b string) string {
 	i := 0
